@@ -246,6 +246,19 @@ CHECKS = {
         design_ref='§3 C12',
         note="Convergence/recovery are numerical facts about scipy's least_squares and are only sampled (10 models x 2-6 parameter vectors).",
         technique="symbolic execution of the real fit bookkeeping with an optimiser contract stub + z3; bounded runs with the real optimiser"),
+    'C18': dict(
+        category='other',
+        text="Contract level (discharged; 3-pore x 4-pressure kernel of opaque non-negative interpolators, minimize and bspline as contract "
+             "stubs): the objective is the sum of squared residuals of the kernel-weighted sum, bounds (0, None) and the x >= 0 constraint "
+             "are passed, the search starts at zero, optimiser failure and interpolator ValueError raise CalculationError, the reported "
+             "fitted isotherm is kernel_loading(result.x), the distribution is weight / width increment (non-negative), the cumulative "
+             "curve is the running integral (non-decreasing); psd_dft requests the kernel's units, selects exactly the points inside "
+             "the limits and passes only those to the fit. Bounded (not counted as proved): exact non-negative mixtures over the shipped "
+             "77-width kernel reproduced to tolerance for spline orders 0-3, non-negativity/monotonicity after smoothing, refusal outside "
+             "the kernel range, out-of-window points on a real isotherm.",
+        design_ref='§3 C18',
+        note="Optimiser convergence and B-spline smoothing are numerical and only sampled (2 sparse + 2 dense mixtures quick).",
+        technique="symbolic execution of the real fit glue with optimiser/interpolator contract stubs + z3; bounded runs on the shipped kernel"),
 }
 
 NOT_YET = {
